@@ -115,8 +115,8 @@ theorem value_reencode_bytes (v : Value) (h : ValueOk v) (hw : Cbor.WF (itemValu
   ⟨normValue v, decValueBytes_enc v h hw, by unfold encValueBytes; rw [itemValue_normValue]⟩
 
 /-- **`TransactionOutput`: re-encoding the decoded output reproduces the bytes, ALWAYS** — legacy or map form, datum
-hash / inline datum / both / neither, any script, flag set or not; the `post_alonzo` flag the decoder recomputes
-(finding KF-C01-post-alonzo-flag) never changes the bytes.  Hypotheses: the output is well-formed (`OutputOk`), the leaf
+hash / inline datum / both / neither, any script, flag set or not (constructed or with attributes assigned after
+construction); the `post_alonzo` flag the decoder sets never changes the bytes.  Hypotheses: the output is well-formed (`OutputOk`), the leaf
 codecs restore what they wrote, sizes are CBOR-representable. -/
 theorem output_reencode {A D N : Type} (L : Leaves A D N) (hL : L.Lawful) (o : Output A D N) (h : OutputOk L o)
     (hw : Cbor.WF (itemOutput L o)) :
